@@ -523,8 +523,9 @@ fn resolve_regions(
                 return Some(());
             }
 
+            // regions that run past the end of the address space cannot be resolved
+            self.last_address = self.last_address.checked_add(size)?;
             self.regions.push(region);
-            self.last_address += size;
             Some(())
         }
     }
